@@ -496,6 +496,10 @@ impl Call {
         let func = args.remove(0);
         Self { func, args }
     }
+    // the values nested directly inside this call
+    pub(crate) fn children(&self) -> impl Iterator<Item = &Value> {
+        std::iter::once(&self.func).chain(self.args.iter())
+    }
     fn signature(&self, ctx: ScriptContextRef) -> Result<Type, Error> {
         let func = self.func(ctx.clone())?;
         let func = func.as_callable().unwrap();
